@@ -25,8 +25,10 @@ BOUNDS = {
              "(3 acceptance rules), alns max_iter<=3 with 2x2 operators and segment_size 2, evolve population 3 / 2 generations / elite 0..2 / "
              "adaptive on-off, differential_evolution pop 4 / 2 iterations, particle_swarm 3 particles / 2 iterations, nelder_mead 1-2 dims / 3 "
              "iterations; minimize and maximize; objective values unbounded Reals per point, random draws symbolic; fresh-point and revisiting "
-             "neighbourhoods. anneal/lns/alns trees are exhausted; tabu/evolve/DE/PSO/Nelder-Mead trees are explored depth-first up to 500 paths "
-             "per configuration (not exhaustive: stated in coverage.exhaustive)",
+             "neighbourhoods; user start points for DE/PSO, adaptive Nelder-Mead, 2-difference DE, numeric knobs off their defaults, and for every "
+             "solver (incl. powell, bfgs, lbfgs, bayesian_opt) a progress callback that stops the run at its 1st/2nd report; powell with no / box / "
+             "pinned bounds. anneal/lns/alns trees are exhausted; tabu/evolve/DE/PSO/Nelder-Mead/powell/bfgs trees are explored up to 150-500 paths "
+             "per configuration in spread order (DESIGN 2.2; not exhaustive: stated in coverage.exhaustive)",
     "thorough": "one more iteration everywhere, tabu with 4 neighbours, evolve population 4",
 }
 OUTSIDE = ("longer runs; DE/PSO/Nelder-Mead positions come from a concrete seeded stream (only decisions and objective values are symbolic); "
